@@ -43,6 +43,8 @@ def use_repo():
         sys.path.insert(0, src)
     os.environ.setdefault('PYTHONDONTWRITEBYTECODE', '1')
     sys.dont_write_bytecode = True
+    import logging
+    logging.disable(logging.CRITICAL)   # the library logs warnings on valid-but-unusual input; not part of any oracle
     return src
 
 
